@@ -113,7 +113,7 @@ def c01_1(ctx):
     init = ctx.repo.func(MOS + '.__init__')
     for attr, param in (('_operands', 'operands'), ('_reverse_arg_order', 'reverse_arg_order'), ('_reverse_op_bytecode_order', 'reverse_op_bytecode_order')):
         st = self_attr_stores(init.node, attr)
-        ctx.check(len(st) == 1 and unparse(st[0][2]) == param, f'flags:ctor:{attr}', init.site(), f'self.{attr} <- {param}', '; '.join(unparse(s[0]) for s in st))
+        ctx.check(len(st) == 1 and unparse(st[0][2]) in (param, f'list({param})', f'{param}[:]', f'{param}.copy()'), f'flags:ctor:{attr}', init.site(), f'self.{attr} <- {param}', '; '.join(unparse(s[0]) for s in st))
     n_sites = 0
     for e in ctx.cg.callers(init):
         b = bind_args(e.node, init)
